@@ -44,7 +44,7 @@ def small_boards():
 N_SMALL = sum(4 ** (L * W) * 2 ** (L * W) * 2 for L, W in SHAPES)
 
 
-def write_and_read(moves, rewards, loose, p_tile, p_robot, p_light, manual=False):
+def write_and_read(moves, rewards, loose, p_tile, p_robot, p_light, manual=False, decoy=None):
     rg = monitors.mods()["roberta_generator"]
     cr = monitors.mods()["conditionalrewards"]
     mb = monitors.mods()["manual"]
@@ -55,6 +55,10 @@ def write_and_read(moves, rewards, loose, p_tile, p_robot, p_light, manual=False
             cwd = os.getcwd()
             os.chdir(d)
             try:
+                if decoy is not None:
+                    # an earlier board of the same shape / largest reward / percentages has already been written: same file name
+                    mb.create_sg_from_board(moves=decoy[0], rewards=decoy[1], loose_tiles=decoy[2], prob_robot_break=p_robot,
+                                            prob_light_break=p_light, prob_tile_break=p_tile)
                 mb.create_sg_from_board(moves=moves, rewards=rewards, loose_tiles=loose, prob_robot_break=p_robot,
                                         prob_light_break=p_light, prob_tile_break=p_tile)
             finally:
@@ -78,8 +82,23 @@ def decide_board(idx, cls, moves, rewards, loose, p_tile, p_robot, p_light, manu
     st["boards_length1"] = int(L == 1)
     st["boards_down_only_tile"] = int(any(3 in r for r in moves))
     st["boards_loose_tile"] = int(any(1 in r for r in loose))
+    decoy = None
+    if manual and L * W >= 2:
+        # same shape, same largest reward, same down-only-ness: the manual file name is the same; layout differs
+        import random as _r
+        r2 = _r.Random(repr(moves))
+        has3 = any(3 in r for r in moves)
+        dm = [[r2.choice([0, 1, 2]) for _ in range(W)] for _ in range(L)]
+        if has3:
+            dm[r2.randrange(L)][r2.randrange(W)] = 3
+        mx = max(max(r) for r in rewards)
+        dr = [[r2.randint(0, mx) for _ in range(W)] for _ in range(L)]
+        dr[r2.randrange(L)][r2.randrange(W)] = mx
+        dl = [[1 - x for x in row] for row in loose]
+        decoy = (dm, dr, dl)
+        st["manual_over_existing_file"] = 1
     try:
-        gamesd = write_and_read(moves, rewards, loose, p_tile, p_robot, p_light, manual)
+        gamesd = write_and_read(moves, rewards, loose, p_tile, p_robot, p_light, manual, decoy)
     except Exception as e:
         res.update(verdict="violated", what="writing/reading the board file raised %s: %s" % (type(e).__name__, str(e)[:200]),
                    case={"moves": moves, "rewards": rewards, "loose": loose, "probs": [p_tile, p_robot, p_light], "manual": manual})
@@ -178,6 +197,8 @@ def run_batch(batch):
         EMIT_START(idx)
         rng = games.case_rng(seed, PID, cls, idx)
         L, W = rng.choice([1, 1, 2, 3, 4, 5, 6, 8]), rng.choice([1, 1, 2, 3, 4, 5, 6, 8])
+        if idx % 20 == 7:
+            L, W = rng.choice([(9, 10), (12, 8), (10, 13), (29, 3), (3, 30), (12, 12)])     # more than 85 tiles
         fd = rng.random() < 0.5
         moves, rewards, loose = rg.gen_rnd_board(rng.randrange(2 ** 31), L, W, rng.choice([.1, .3, .5, .9]), rng.choice([1, 6, 20]), fd)
         pt, prb, pl = rng.choice(PROBS), rng.choice(PROBS), rng.choice(PROBS)
